@@ -51,6 +51,9 @@ func scenariosFor(prop string) []scn {
 		// parallel processor workers
 		both(flowParams{Sources: 1, Records: 3, Batch: 1, Dests: 1, AckMenu: onlyOK, Procs: []procParam{{ID: "pp", Workers: 2, Gate: true}}}, 2, 3)
 		both(flowParams{Sources: 1, Records: 3, Batch: 1, Dests: 2, AckMenu: onlyOK, Procs: []procParam{{ID: "pp", Workers: 3, Gate: true, Kinds: []string{"p", "f", "p"}}}}, 1, 3)
+		// parallel workers behind a condition: records that do not match pass through while matching ones are in a worker
+		both(flowParams{Sources: 1, Records: 3, Batch: 1, Dests: 1, AckMenu: onlyOK, NoMatch: []int{1}, Procs: []procParam{{ID: "pp", Workers: 2, Gate: true, Cond: "match"}}}, 2, 3)
+		both(flowParams{Sources: 1, Records: 3, Batch: 3, Dests: 1, AckMenu: onlyOK, NoMatch: []int{0, 2}, Procs: []procParam{{ID: "pp", Workers: 2, Gate: true, Cond: "match"}}}, 1, 3)
 		// store faults, bundle-count flushes, several sources sharing the persister
 		both(flowParams{Sources: 1, Records: 3, Batch: 1, Dests: 1, AckMenu: onlyOK, Stop: "stopwait", Faults: true, Bundle: 2}, 2, 3)
 		both(flowParams{Sources: 2, Records: 2, Batch: 1, Dests: 1, AckMenu: onlyOK, Stop: "stopwait", Faults: true}, 1, 2)
